@@ -1106,7 +1106,6 @@ pub mod verif_hooks {
     use super::*;
     pub use super::PackSizer;
 
-    pub use super::PackSizer;
 
     /// `BasicPacker` (crate-private) behind a public newtype; every method forwards.
     #[derive(Debug)]
